@@ -71,7 +71,9 @@ func (d *detReader) Read(p []byte) (int, error) {
 	return n, nil
 }
 
-func newRand(seed uint64) *detReader { return &detReader{stream: gen.Fill(gen.Mix(seed, 0x72616e64), 32*16)} }
+func newRand(seed uint64) *detReader {
+	return &detReader{stream: gen.Fill(gen.Mix(seed, 0x72616e64), 32*16)}
+}
 
 func randOf(stream []byte) *detReader { return &detReader{stream: stream} }
 
@@ -187,7 +189,9 @@ var intsEPs = []intsEP{
 	{"Verify", func(v *vctx) bool { return v.e != nil },
 		func(v *vctx, r, s *big.Int) bool { return sm2.Verify(v.pub, cp(v.e), cpi(r), cpi(s)) }},
 	{"VerifyWithSM2", func(v *vctx) bool { return v.msgMode },
-		func(v *vctx, r, s *big.Int) bool { return sm2.VerifyWithSM2(v.pub, cp(v.uid), cp(v.msg), cpi(r), cpi(s)) }},
+		func(v *vctx, r, s *big.Int) bool {
+			return sm2.VerifyWithSM2(v.pub, cp(v.uid), cp(v.msg), cpi(r), cpi(s))
+		}},
 }
 
 // ---------------------------------------------------------------- reference verdict
